@@ -485,6 +485,14 @@ def run(case):
                 # a plain single-piece bytes insertion legitimately returns
                 # the bytes object itself (C19 covers multi-piece joins)
                 continue
+            if enc and quoting:
+                # the same bytes first pass through a template of the
+                # other encoding (where they mean another text, or nothing)
+                try:
+                    render(form, raw, 'latin-1' if enc != 'latin-1'
+                           else 'utf-8')
+                except Exception:
+                    pass
             got = render(form, raw, enc)
             n += 1
             exp = expected(form, value)
